@@ -422,6 +422,10 @@ func argOfParam(v ssa.Value) (ssa.Value, bool) {
 	}
 	site := theWorld.singleSiteCI(p.Parent())
 	if site == nil {
+		// several call sites that all hand in the very same value for this parameter
+		if a := theWorld.uniformArgOf(p); a != nil {
+			return a, true
+		}
 		return nil, false
 	}
 	if i := paramIndex(p); i >= 0 && i < len(site.Common().Args) {
